@@ -281,7 +281,7 @@ class Encode(Filter[Iterable[Union[Sequence,Mapping]], Iterable[Union[Sequence,M
                 try:
                     first_item[k]
                     encoders[k] = v
-                except:
+                except Exception:
                     pass
 
         unfit_enc = { k:v for k,v in encoders.items() if not v.is_fit }
